@@ -67,17 +67,29 @@ def gen_case(rng, tier):
                     edges.append(list(reversed(e)))      # a repeated edge accumulates
     which = rng.choice(['is', 'mis', 'mwis', 'mwis'])
     nodes = None
-    if rng.random() < 0.7:
-        sub = [l for l in labels if rng.random() < 0.8]
+    if rng.random() < 0.75:
+        keep = rng.choice([0.8, 0.8, 0.4, 1.0])       # partial node lists: the others default to weight 1
+        sub = [l for l in labels if rng.random() < keep]
+        if rng.random() < 0.15:
+            sub.append(rng.choice([x for x in POOL if x not in labels]))    # a node without any edge
         rng.shuffle(sub)
         if which == 'mwis':
-            nodes = [[enc_label(v), str(Fraction(rng.randint(0, 12), rng.choice([1, 2, 4])))] for v in sub]
+            wmode = rng.choice(['mixed', 'mixed', 'below1', 'below1', 'above1', 'ints'])
+            def w():
+                if wmode == 'below1':
+                    return Fraction(rng.choice([0, 1, 1, 2, 3, 3, 5, 7]), 8)
+                if wmode == 'above1':
+                    return Fraction(rng.randint(5, 24), 4)
+                if wmode == 'ints':
+                    return Fraction(rng.randint(0, 5))
+                return Fraction(rng.randint(0, 12), rng.choice([1, 2, 4]))
+            nodes = [[enc_label(v), str(w())] for v in sub]
             if sub and rng.random() < 0.15:
-                nodes.append([enc_label(sub[0]), str(Fraction(rng.randint(0, 12), 2))])   # repeated: last wins
+                nodes.append([enc_label(sub[0]), str(w())])   # repeated: last wins
         else:
             nodes = [[enc_label(v), "1"] for v in sub]
     return {"kind": "mwis", "which": which, "edges": [[enc_label(u), enc_label(v)] for u, v in edges], "nodes": nodes,
-            "strength": rng.choice([None, None] + STRENGTHS + ['5/2']),
+            "strength": rng.choice([None, None, None, None] + STRENGTHS + ['5/2']),
             "mult": rng.choice([None, None, '1', '2', '3/2', '3'])}
 
 
